@@ -171,8 +171,17 @@ static void fire(const char* kind)
 }
 
 // ---- cookie callbacks: the "system calls" under glibc stdio
+// Every transfer between a stdio buffer and the "disk" is a schedule point, like a read()/write() system call: other
+// simulated threads may run between one thread's block read and its block write (each File has its own FILE, so the
+// stream lock held here blocks nobody else).
+static inline void ioPoint()
+{
+	if (simThread() && !inRt)
+		sp();
+}
 static ssize_t ckRead(void* c, char* buf, size_t n)
 {
+	ioPoint();
 	Stream* s = (Stream*)c;
 	if (!s->rd)
 	{
@@ -204,6 +213,7 @@ static ssize_t ckRead(void* c, char* buf, size_t n)
 }
 static ssize_t ckWrite(void* c, const char* buf, size_t n)
 {
+	ioPoint();
 	Stream* s = (Stream*)c;
 	if (!s->wr)
 	{
